@@ -191,6 +191,14 @@ open Lean Elab Command in
         if hits:
             self.broken_obligations.append("forbidden constructs: " + "; ".join(hits[:10]))
         self.say(f"[audit] {len(thms)} theorems in {mod}, axioms ok={not bad}, forbidden constructs={len(hits)}")
+        if self.tier == "thorough":
+            # independent re-check of the compiled property module (and what it imports from this project) by leanchecker
+            t = time.time()
+            r = subprocess.run(["lake", "env", "leanchecker", mod], cwd=LEAN, capture_output=True, text=True, env=ENV)
+            self.extra["leanchecker"] = {"module": mod, "rc": r.returncode, "seconds": round(time.time() - t, 1)}
+            self.say(f"[leanchecker] {mod} rc={r.returncode} ({time.time() - t:.1f}s)")
+            if r.returncode != 0:
+                self.broken_obligations.append("leanchecker rejects " + mod + ": " + (r.stdout + r.stderr)[-300:])
 
     # ------------------------------------------------------------------ 3. driver builds
     def cargo_build(self, profile, features=""):
@@ -386,7 +394,8 @@ open Lean Elab Command in
                 "obligations": max(1, n_obl + broken), "discharged": max(0, n_obl) if n_obl else 0,
                 "checker_cmd": f"cd /verif/lean && lake build Fpdec.Props.{self.prop} && lake env lean <audit: collectAxioms on every theorem of Fpdec.Props.{self.prop}>",
                 "trusted_base": ["Lean 4.33.0 kernel", "axioms: propext, Classical.choice, Quot.sound (allow-list checked per theorem)",
-                                 "tools/fpextract.py + tools/fpsites.py (translator: constants, tables, arithmetic sites)",
+                                 "tools/fpextract.py + tools/fpsites.py + tools/fpkernels.py (translator: constants, tables, token skeleton of every file, "
+                                 "expression-level translation of the arithmetic kernels with tie theorems)",
                                  "correspondence check fpdrv (real crate, in-process) vs fpmodel (compiled Lean model)",
                                  "rustc/std semantics of the items listed in DESIGN.md section 2.2 as modelled"],
                 "theorems": self.theorems,
